@@ -1,0 +1,55 @@
+//go:build verif
+
+package backend
+
+// Machine-checked contracts for package backend (read by /verif/govc; this
+// file contains comments only and is compiled only with build tag verif).
+//
+//@ // C19: the result list is shared by the classification goroutines and is
+//@ // protected by ClassifierBackend.mu. It only ever grows (rely), entries are
+//@ // non-nil, and every access happens with the mutex held.
+//@ spec resultsInv(b *ClassifierBackend) bool = forall k int :: 0 <= k && k < len(b.results) ==> b.results[k] != nil
+//@ lockinv ClassifierBackend.mu = resultsInv protects owner.results, anyelems(owner.results) rely forall k int :: 0 <= k && k < old(len(owner.results)) ==> k < len(owner.results) && owner.results[k] == old(owner.results[k])
+//@
+//@ // kept(ms, n, headers): how many of the first n matches must be reported
+//@ // (header matches only with -headers)
+//@ spec kept(ms classifier.Matches, n int, headers bool) int
+//@ lemma kept-def: forall ms classifier.Matches, h bool :: kept(ms, 0, h) == 0 && (forall n int :: 0 <= n && n < len(ms) ==> kept(ms, n+1, h) == kept(ms, n, h) + ite(!h && ms[n].MatchType == "Header", 0, 1))
+//@ ghostvar mine int
+//@
+//@ // matchLoop: one result entry per match returned by the library (minus
+//@ // headers unless requested), carrying that match's fields and the file name,
+//@ // appended under the mutex.
+//@ func (*ClassifierBackend).classifyLicense$1
+//@   uses kept-def
+//@   requires b != nil && b.classifier != nil && readyClassifier(b.classifier) && held(&b.mu) == 0
+//@   ensures held(&b.mu) == 0
+//@   ghostset mine = 0 atentry
+//@   ghostset mine = mine + 1 onstore field ClassifierBackend.results
+//@   access ClassifierBackend.results read requires held(&b.mu) == 2
+//@   access ClassifierBackend.results write requires held(&b.mu) == 2 && len(value) == len(owner.results) + 1 && value[len(value)-1] != nil && value[len(value)-1].Filename == filename && value[len(value)-1].Name == m.Name && value[len(value)-1].MatchType == m.MatchType && value[len(value)-1].Variant == m.Variant && same(value[len(value)-1].Confidence, m.Confidence) && value[len(value)-1].StartLine == m.StartLine && value[len(value)-1].EndLine == m.EndLine
+//@   loop 1 invariant held(&b.mu) == 0 && mine == kept(rangeslice, rangeindex + 1, headers) && (forall k int :: 0 <= k && k < len(rangeslice) ==> rangeslice[k] != nil)
+//@   loop 1 exit mine == kept(rangeslice, len(rangeslice), headers)
+//@   modifies b.results, anyelems(b.results)
+//@   props C19
+//@
+//@ func (*ClassifierBackend).classifyLicense
+//@   requires b != nil && b.classifier != nil && readyClassifier(b.classifier) && held(&b.mu) == 0
+//@   ensures held(&b.mu) == 0
+//@   modifies b.results, anyelems(b.results)
+//@   props C19
+//@
+//@ // the worker goroutine: needs the backend ready and holds no lock
+//@ func (*ClassifierBackend).ClassifyLicenses$1
+//@   requires b != nil && b.classifier != nil && readyClassifier(b.classifier) && held(&b.mu) == 0
+//@   modifies b.results, anyelems(b.results)
+//@   props C19
+//@
+//@ func (*ClassifierBackend).ClassifyLicenses
+//@   requires b != nil && b.classifier != nil && readyClassifier(b.classifier) && held(&b.mu) == 0
+//@   loop 2 invariant b != nil && b.classifier != nil && readyClassifier(b.classifier) && held(&b.mu) == 0
+//@   props C19
+//@
+//@ func (*ClassifierBackend).GetResults
+//@   requires b != nil
+//@   props C19
